@@ -1597,7 +1597,9 @@ func SelectStrategy(n *nfa.NFA, re *syntax.Regexp, literals *literal.Seq, config
 	nfaSize := n.States()
 	litAnalysis := analyzeLiterals(literals, config)
 	litAnalysis.hasAnchors = hasAnchorAssertions(re)
-	litAnalysis.hasNonLineAnchors = litAnalysis.hasAnchors && hasNonLineAnchors(re)
+	// A (?m)^ that does not lead every alternative is as good as any other anchor here:
+	// the line-anchor wrapper would demand it of every match.
+	litAnalysis.hasNonLineAnchors = litAnalysis.hasAnchors && (hasNonLineAnchors(re) || !onlyLeadingLineAnchors(re))
 
 	// Check for simple char_class+ patterns (HIGHEST priority for character class patterns)
 	// Patterns like [\w]+, [a-z]+, \d+ use CharClassSearcher: 14-17x faster than BoundedBacktracker
